@@ -348,9 +348,13 @@ func vkSrvSweep(c *vkit.Ctx, mode string) {
 						c.Sample(map[string]any{"case": cs.key(), "outcome": outcome})
 					}
 					if v != "" {
-						// reproduce on a fresh world (rules out TTL second boundaries and stale state)
+						// reproduce on a fresh world (rules out TTL second boundaries and stale state).
+						// The packet is served once first and that round discarded: a packet whose first
+						// serve itself changes shared state (e.g. records a failure for a new ECS audience)
+						// would otherwise make the path that happens to run first look different.
 						w2 := vkNewSrvWorld(cfg)
 						vkSeedWorld(w2)
+						_, _ = judge(w2, cs)
 						v2, _ := judge(w2, cs)
 						w2.close()
 						if v2 == "" {
